@@ -1697,6 +1697,12 @@ where
         self.next_max_seen_event_number
     }
 
+    /// Set the instant the report in progress counts as delivered at (committed by
+    /// [`Self::set_keep`]); by default it is the `now` handed to `report()` / `add()`.
+    pub fn set_reported_at(&mut self, at: Instant) {
+        self.next_reported_at = at;
+    }
+
     /// Mark the subscription to be kept in the table after the report completes,
     /// meaning the other peer acknowledged our report.
     pub fn set_keep(&mut self) {
